@@ -1139,3 +1139,69 @@ package raft
 //@   ensures #committed-prefix-stable [C01 C03] forall i int :: i <= old(r.raftLog.committed) && old(log_has(r.raftLog, i)) ==> log_has(r.raftLog, i) && log_term(r.raftLog, i) == old(log_term(r.raftLog, i))
 //@   ensures #rest raft_kept_but_msgs(r) && r.raftLog.applied == old(r.raftLog.applied) && r.raftLog.applying == old(r.raftLog.applying)
 //@   ensures #wf wf_raft(r) && hs_monotone(r)
+
+//@ -- ------------------------------------------------------------------------------------------
+//@ -- raft.go: snapshot install (C09) and configuration switch
+
+//@ pred inIDs(s []uint64, id uint64) := exists p int :: s.off <= p && p < s.off + len(s) && elem(s, p) == id
+//@ pred progressMap_wf(trk tracker.ProgressMap) := trk != nil && (forall id uint64 :: has(trk, id) ==> wf_progress(trk[id]))
+//@     && (forall a uint64, b uint64 :: {has(trk, a), has(trk, b)} has(trk, a) && has(trk, b) && a != b ==> trk[a] != trk[b])
+
+//@ -- ASSUMED until the confchange package is under contract (listed in the evidence): Restore on an empty tracker returns
+//@ -- a well-formed progress map of fresh records, and touches nothing the caller can see.
+//@ -- E-snapshot-conf-valid: the ConfState carried by a snapshot was produced by this library from a valid configuration
+//@ ufun confStateOK(cs *pb.ConfState) bool
+//@ func confchange.Restore [C13]
+//@   trusted
+//@   requires #empty-tracker [C13 C09] len(chg.Tracker.Progress) == 0 && len(chg.Tracker.Voters[0]) == 0 && len(chg.Tracker.Voters[1]) == 0
+//@        && len(chg.Tracker.Learners) == 0 && len(chg.Tracker.LearnersNext) == 0 && !chg.Tracker.AutoLeave
+//@   requires #max-inflight chg.Tracker.MaxInflight >= 1
+//@   requires cs != nil
+//@   ensures #valid-never-fails [C14] confStateOK(cs) ==> result2 == nil
+//@   ensures result2 == nil ==> progressMap_wf(result1) && (forall id uint64 :: has(result1, id) ==> fresh(result1[id]) && fresh(result1[id].Inflights)
+//@        && result1[id].Match == 0 && result1[id].Next == max(chg.LastIndex, 1) + 0 && result1[id].Inflights.size == chg.Tracker.MaxInflight
+//@        && result1[id].Inflights.maxBytes == chg.Tracker.MaxInflightBytes)
+
+//@ -- ASSUMED: the ConfState derived from the restored configuration is equivalent to the snapshot's (round trip, C13); a
+//@ -- mismatch panics. The round trip itself is outside the contracts built so far.
+//@ func raft.assertConfStatesEquivalent [C14]
+//@   trusted
+
+//@ -- switchToConfig installs (cfg, trk); on a non-leader nothing else changes. TODO verify the body (leader part: maybeCommit, bcastAppend, Visit).
+//@ func raft.raft.switchToConfig [C10 C13]
+//@   trusted
+//@   requires #wf wf_raft(r)
+//@   requires #trk-wf progressMap_wf(trk)
+//@   ensures #installed [C10] r.trk.Progress == trk && r.trk.Voters[0] == cfg.Voters[0] && r.trk.Voters[1] == cfg.Voters[1] && r.trk.Learners == cfg.Learners
+//@        && r.trk.LearnersNext == cfg.LearnersNext && r.trk.AutoLeave == cfg.AutoLeave && r.isLearner == (has(trk, r.id) && trk[r.id].IsLearner)
+//@   ensures #non-leader-rest old(r.state) != StateLeader ==> raft_kept_but_msgs(r) && r.msgs == old(r.msgs) && r.msgsAfterAppend == old(r.msgsAfterAppend)
+//@        && r.raftLog.committed == old(r.raftLog.committed) && log_last(r.raftLog) == old(log_last(r.raftLog))
+//@   ensures #kept r.trk.MaxInflight == old(r.trk.MaxInflight) && r.trk.MaxInflightBytes == old(r.trk.MaxInflightBytes) && r.trk.Votes == old(r.trk.Votes) && r.raftLog == old(r.raftLog)
+//@   ensures #wf wf_raft(r) && hs_monotone(r) && result != nil
+
+//@ func raftpb.EnsureConfState
+//@   inline
+
+//@ func raft.raft.restore [C09 C07 C13 C16 C14]
+//@   requires wf_raft(r) && s != nil
+//@   requires #a-arith snapIndex(s) < 4611686018427387904 && r.Term + 1 < 9223372036854775808 && r.trk.MaxInflight >= 1
+//@   requires #valid-confstate [C14] s.Metadata != nil && s.Metadata.ConfState != nil ==> confStateOK(s.Metadata.ConfState)
+//@   reveal wf_raftLog, wf_trk, trk_distinct
+//@   ensures #obsolete-ignored [C09 C07] old(snapIndex(s) <= r.raftLog.committed) ==> !result && raft_kept_but_msgs(r) && log_cursors_kept(r.raftLog)
+//@        && r.raftLog.unstable.snapshot == old(r.raftLog.unstable.snapshot) && r.raftLog.unstable.entries == old(r.raftLog.unstable.entries)
+//@        && r.raftLog.unstable.offset == old(r.raftLog.unstable.offset) && r.trk.Progress == old(r.trk.Progress)
+//@   ensures #fast-forward [C09 C03] !result && old(snapIndex(s) > r.raftLog.committed && r.state == StateFollower) ==>
+//@        r.raftLog.unstable.snapshot == old(r.raftLog.unstable.snapshot) && r.raftLog.unstable.entries == old(r.raftLog.unstable.entries)
+//@        && r.raftLog.unstable.offset == old(r.raftLog.unstable.offset) && r.trk.Progress == old(r.trk.Progress)
+//@        && (r.raftLog.committed == old(r.raftLog.committed) || (r.raftLog.committed == old(snapIndex(s)) && old(matchesAt(r.raftLog, snapIndex(s), snapTerm(s)))))
+//@   ensures #installed [C09] result ==> old(snapIndex(s) > r.raftLog.committed && r.state == StateFollower && !matchesAt(r.raftLog, snapIndex(s), snapTerm(s)))
+//@        && r.raftLog.committed == old(snapIndex(s)) && log_last(r.raftLog) == old(snapIndex(s)) && log_first(r.raftLog) == old(snapIndex(s)) + 1
+//@        && r.raftLog.unstable.snapshot != nil && snapIndex(r.raftLog.unstable.snapshot) == old(snapIndex(s)) && snapTerm(r.raftLog.unstable.snapshot) == old(snapTerm(s))
+//@   ensures #member-only [C09 C13] result ==> old(s.Metadata != nil && s.Metadata.ConfState != nil) && (inIDs(old(s.Metadata.ConfState.Voters), r.id)
+//@        || inIDs(old(s.Metadata.ConfState.Learners), r.id) || inIDs(old(s.Metadata.ConfState.VotersOutgoing), r.id))
+//@   ensures #limits-kept [C16] r.trk.MaxInflight == old(r.trk.MaxInflight) && r.trk.MaxInflightBytes == old(r.trk.MaxInflightBytes)
+//@   ensures #cursors-kept [C08] r.raftLog.applied == old(r.raftLog.applied) && r.raftLog.applying == old(r.raftLog.applying)
+//@   ensures #follower-kept old(r.state) == StateFollower ==> raft_kept_but_msgs(r) && r.msgs == old(r.msgs) && r.msgsAfterAppend == old(r.msgsAfterAppend)
+//@   ensures #wf wf_raft(r) && hs_monotone(r)
+//@   loop 1 invariant #not-found !found && 0 <= iter && iter <= 3
+//@   loop 2 invariant #not-found !found && 0 <= iter && iter <= len(set)
